@@ -1153,12 +1153,16 @@ func (n *StringNode) Format(buf *bytes.Buffer, indent string, onNewLine bool) {
 		onNewLine = true
 	}
 	writeIndent(buf, indent, onNewLine)
-	if n.TripleQuotes {
+	// A literal that ends in a backslash cannot be written in single quotes,
+	// the backslash would escape the closing quote.
+	tripleQuotes := n.TripleQuotes ||
+		(strings.HasSuffix(n.Literal, `\`) && !strings.Contains(n.Literal, "'''"))
+	if tripleQuotes {
 		buf.WriteString("'''")
 	} else {
 		buf.WriteByte('\'')
 	}
-	if n.TripleQuotes {
+	if tripleQuotes {
 		buf.WriteString(n.Literal)
 	} else {
 		for _, c := range n.Literal {
@@ -1168,7 +1172,7 @@ func (n *StringNode) Format(buf *bytes.Buffer, indent string, onNewLine bool) {
 			buf.WriteRune(c)
 		}
 	}
-	if n.TripleQuotes {
+	if tripleQuotes {
 		buf.WriteString("'''")
 	} else {
 		buf.WriteByte('\'')
